@@ -19,8 +19,8 @@ META = {
 THEOREMS = ["Qentem.Props.C01." + t for t in [
     "tables_width_independent", "finder_safe_total", "expr_scan_safe", "render_safe_of_wf",
     "parse_wf_varraw", "render_safe_varraw", "parse_wf_inline", "render_safe_inline",
-    "parse_text", "render_text", "checkLoopVariable_safe", "expr_scan_total", "parse_wf_loops", "render_safe_loops", "finder_facts"]]
-OPEN_STATEMENTS = ["Qentem.Props.C01.ParseWF (what parse returns is well-formed) for contents with loop / if / inline-if / svar tags: evaluated per run through the driver op tplwf on every generated template",
+    "parse_text", "render_text", "checkLoopVariable_safe", "expr_scan_total", "parse_wf_loops", "render_safe_loops", "finder_facts", "parse_wf_blocks", "render_safe_blocks"]]
+OPEN_STATEMENTS = ["Qentem.Props.C01.ParseWF (what parse returns is well-formed) for contents with inline-if / svar tags (loops and multi-line if are proved: parse_wf_blocks): evaluated per run through the driver op tplwf on every generated template",
                    "Qentem.Props.C01.ParseSafe / RenderSafe for those contents: decided per run by the sanitizer streams and the model correspondence"]
 
 # Work-around (vlib/core.py is shared and not edited here): core.classify_fault compares rc < 0
